@@ -158,6 +158,10 @@ func init() {
 			if err != nil {
 				return fmt.Errorf("listing scenarios: %v", err)
 			}
+			freeRuns := 0
+			defer func() {
+				rep.PerConfig = append(rep.PerConfig, fmt.Sprintf("C13 auxiliary free-running -race executions (cross-check, not deciding): %d", freeRuns))
+			}()
 			for _, sc := range strings.Fields(string(listOut)) {
 				bound := "-1"
 				if strings.HasSuffix(sc, "/3thr") {
@@ -197,7 +201,16 @@ func init() {
 				}
 				if f != nil {
 					rep.Found = append(rep.Found, *f)
+					continue
 				}
+				// auxiliary (not deciding): the same bodies free-running under -race
+				fr := runC13Worker(bin, 5*time.Minute, "-scenario", sc, "-free", "200")
+				if fr.exit == 66 {
+					g := engine.Found{Scenario: "C13/" + sc + "/free-running", OpKind: raceSite(fr.raceText),
+						V: drv.Violation{Kind: "race", Msg: fmt.Sprintf("data race in a free-running execution of %s (not found by the controlled exploration):\n%s", sc, fr.raceText)}}
+					rep.Found = append(rep.Found, g)
+				}
+				freeRuns += 200
 			}
 			return nil
 		}
